@@ -128,6 +128,14 @@ add("C12", "exploration", E1 + " (all ordered value pairs per type, descriptor v
     "up to depth 5 (6) restores the configuration.",
     "Reference equality by documented content of each field type; NaN is unequal to NaN.", "DESIGN.md C12")
 
+add("C05", "model_checking", E2 + " over assignment histories per field type with construct / _replace / init_from_dict / grouped / decode probes after every step",
+    "For every field type: all histories of assignments (scalar, list, list with an already-typed head) up to length 2 (3 thorough) over "
+    "valid, boundary, just-outside, wrong-kind and already-typed candidates: every slot holds None, the empty default or an instance of "
+    "the declared class (elements too), timestamps are aware, text is str; a raising operation leaves the record unchanged; every "
+    "accepting one leaves it serialisable and decodable; the unrepresentable values the statement names are rejected through every door, "
+    "also after a history; keyword-named fields (slow generated class) included.",
+    "For wrong-kind candidates only the invariant is demanded; the must-reject table lists only what the statement names.", "DESIGN.md C05")
+
 NOT_BUILT = "check not built yet in this round (design in DESIGN.md section 3); not claimed until it runs"
 
 
